@@ -33,13 +33,15 @@ SimNext ==
         \/ ERet(g) /\ Step(g, IF eidx[g] < RecsPer THEN EKn(g) \o "@call" ELSE "")
   \/ PollTrig /\ Step("poll", "poll@blp.poll.woke")
   \/ PollKill /\ Step("poll", "")
-  \/ PollReady /\ Step("poll", IF Len(input) < BufSize THEN "" ELSE "poll@blp.poll.dequeued")
+  \/ PollDropped /\ Step("poll", "")
+  \/ PollReady /\ Step("poll", "")
+  \/ PollLen /\ Step("poll", "poll@blp.poll.dequeued")
   \/ PollDequeue /\ Step("poll", "poll@blp.poll.dequeued")
   \/ PollRetrig /\ Step("poll", "")
   \/ XRecv /\ Step("x", "")
   \/ XDone /\ Step("x", "")
   \/ XBegin /\ Step("x", "x@exp.begin")
-  \/ \E ok \in BOOLEAN, abort \in BOOLEAN : /\ (ok \/ Faults) /\ XEnd(ok, abort)
+  \/ \E ok \in BOOLEAN, abort \in BOOLEAN : /\ (ok \/ Faults) /\ (abort => ChunkAbort) /\ XEnd(ok, abort)
                          /\ hist' = Append(hist, "x@exp.begin") /\ last' = [last EXCEPT !["x"] = ""]
                          /\ xres' = Append(xres, IF ok THEN "ok" ELSE "err") /\ UNCHANGED fin
   \/ \E f \in Flushers :
